@@ -4,8 +4,11 @@ call trees; each is COMPILED to real EVM bytecode, deployed into a committed bas
 real vm.EVM over a real account.Manager (twice with ample gas, twice with a seeded starved gas limit); the frame-level
 events recorded by a vm.Tracer, the real post-state and the gas numbers are re-executed and compared by TLC in
 TraceCallFrames.tla.  Seeded drivers add deeper random trees, arbitrary byte strings / opcode soups / precompile
-inputs / creations and unbounded recursion (depth limit), validated by the same trace spec."""
-import os, re, json, random, collections, concurrent.futures
+inputs / creations and unbounded recursion (depth limit), validated by the same trace spec.
+BOUNDARY-OPERAND layer (CallFramesBoundary.tla): TLC enumerates (opcode, operand classes, context) tuples - operands on
+the edges of every range the platform checks, 256-bit exact arithmetic in the spec - each tuple is compiled into a tiny
+real program, run twice on the real EVM inside a wrapper frame, and judged by TraceCallFramesBoundary.tla."""
+import os, re, json, time, random, threading, collections, concurrent.futures
 LEVEL = "model_checking"
 
 MANIFEST = dict(
@@ -16,7 +19,15 @@ MANIFEST = dict(
          "manager + store; TLC re-executes the frame events a vm.Tracer recorded (context, read-only, success flag, exact gas accounting, 63/64 rule) "
          "and requires the real post-state to equal the re-executed world (all-or-nothing, read-only is a no-op), identical twin runs (determinism), "
          "gas left <= supplied and depth <= 1024. Simulated deeper behaviours, seeded random trees, random byte strings, opcode soups, precompile "
-         "inputs and unbounded recursion are validated the same way.",
+         "inputs and unbounded recursion are validated the same way. Boundary-operand layer: for 54 opcodes taking memory / data offsets, lengths, "
+         "gas, value, address, jump-destination or arithmetic operands TLC enumerates (opcode, operand-class tuple, context) with operand classes "
+         "0,1,31,32,33,N-1,N,N+1,2^32-1,2^32,2^63,2^64-1,2^64,2^64+1,2^128,2^255,2^256-1 (N = memory / return data / call data / code length, "
+         "balance, stipend), contexts {prior call left return data} x {read-only frame} x {ample, starved gas}; every tuple is compiled to a real "
+         "program and run twice on the real EVM; TLC judges: no panic, identical runs, gas never grows, failed / read-only frame leaves the state "
+         "untouched, the demanded outcome (exact 256-bit arithmetic: out-of-bounds RETURNDATACOPY and unaffordable memory must fail, the rest must "
+         "succeed) and exact memory size, copied / returned bytes and fixed result words. Quick: all tuples of the three copy opcodes, of EXTCODECOPY "
+         "from the data contract and of the small families (jumps, storage, MSTORE, account opcodes) + a seeded 1/16 sample of the rest; "
+         "thorough: every tuple.",
     note="Published events are counted from the change journal (what a block publishes); the platform's failure event after a failed call is "
          "modelled as the allowed effect. Two genuine defects are carried as named deviations: a frame that fails after one of its inner calls "
          "failed and a later one wrote again panics the node (Dev_NestedFailVersionGapPanics); reverting across SELFDESTRUCT loses storage "
@@ -104,12 +115,129 @@ def write_sim(ctx, prefix, init_label, paths):
     return os.path.join(d, prefix + "_*")
 
 
+BND_MODELS = ("wrap64", "trunc64", "wrap256", "trunc32", "offonly")
+
+
+def boundary_layer(ctx, pool):
+    """Boundary-operand layer; returns a closure that finishes it (drive + validate) once the enumeration is there."""
+    import vlib
+    quick = ctx.quick()
+    spec = ctx.specdir
+    # (ctx.violation numbers its replay files by the violations recorded so far: one validator at a time in there)
+    lock, record = threading.Lock(), ctx.violation
+
+    def locked(*a, **kw):
+        with lock:
+            return record(*a, **kw)
+    ctx.violation = locked
+    cfg = open(os.path.join(spec, "MCCallFramesBoundary_quick.cfg" if quick else "MCCallFramesBoundary_thorough.cfg")).read()
+    with open(os.path.join(spec, "MCCallFramesBoundary_run.cfg"), "w") as fh:
+        fh.write(cfg.replace("@SEED@", str(ctx.seed)))
+    # negative controls run as a module of their own name (ctx.tlc derives its scratch names from the module name)
+    src = open(os.path.join(spec, "MCCallFramesBoundary.tla")).read()
+    with open(os.path.join(spec, "MCCallFramesBoundaryN.tla"), "w") as fh:
+        fh.write(src.replace("MODULE MCCallFramesBoundary", "MODULE MCCallFramesBoundaryN"))
+    neg = open(os.path.join(spec, "MCCallFramesBoundary_neg.cfg")).read()
+    dot = ctx.path("boundary.dot")
+
+    def enumerate_tuples():
+        r = ctx.tlc_exhaustive("MCCallFramesBoundary", "MCCallFramesBoundary_run.cfg", timeout=1500, dump=dot, workers=16 if quick else 12)
+        return r
+
+    def negative_controls():
+        # every careless arithmetic of the bounds check must be told apart from the exact sum by some enumerated tuple
+        for m in BND_MODELS if not quick else BND_MODELS[:2]:
+            c = "MCCallFramesBoundary_neg_%s.cfg" % m
+            with open(os.path.join(spec, c), "w") as fh:
+                fh.write(neg.replace("@MODEL@", m))
+            r = ctx.tlc("MCCallFramesBoundaryN", c, timeout=600, workers=4, expect_ok=False)
+            ctx.extra.setdefault("negative_controls", {})["boundary:" + m] = r["inv"]
+            if r["inv"] != "ImplBoundsAgree":
+                raise vlib.Broken("negative control boundary/%s: expected a violation of ImplBoundsAgree, got %s\n%s" % (m, r["inv"], r["out"][-1500:]))
+    fut_enum = pool.submit(enumerate_tuples)
+    fut_neg = pool.submit(negative_controls)
+
+    def finish():
+        fut_enum.result()
+        ntuples = 0
+        with open(dot) as fh:
+            for ln in fh:
+                if 'stage = \\"tuple\\"' in ln and "->" not in ln[:48]:
+                    ntuples += 1
+        shards = 16
+        scr = ctx.path("work", "boundary", ".keep")[:-6]
+
+        def one(i):
+            out = ctx.path("traces", "boundary.%d.ndjson" % i)
+            rr = ctx.drive("callframes-boundary", ["-graph", dot, "-shard", "%d/%d" % (i, shards), "-seed", ctx.seed, "-out", out], 2400,
+                           {"VERIF_SCRATCH_DIR": os.path.join(scr, str(i))})
+            return out, json.loads(rr.stdout.strip().splitlines()[-1])["rows"]
+        t = time.time()
+        with concurrent.futures.ThreadPoolExecutor(shards) as ex:
+            res = list(ex.map(one, range(shards)))
+        os.remove(dot)
+        files = [r[0] for r in res]
+        rows = sum(r[1] for r in res)
+        ctx.log("boundary layer: %d tuples compiled and run on the real EVM in %.1fs" % (rows, time.time() - t))
+        if rows != ntuples or rows == 0:
+            raise vlib.Broken("boundary layer: %d rows for %d enumerated tuples" % (rows, ntuples))
+        # what the real runs looked like (evidence and vacuity gates, no verdict)
+        st = collections.Counter()
+        sample = None
+        for f in files:
+            for ln in open(f):
+                if '"ev":"Bnd"' not in ln:
+                    continue
+                head = ln[:ln.index('"g":')]
+                op = ln[ln.index('"op":"') + 6:]
+                op = op[:op.index('"')]
+                ok = json.loads(ln[ln.index('"r1":') + 5:ln.index(',"r2":')])
+                st[(op, "ok" if ok[3] == 1 else "failed")] += 1
+                if ok[0]:
+                    st["panicked"] += 1
+                if sample is None and op == "RETURNDATACOPY" and ok[3] == 1:
+                    cand = json.loads(ln)
+                    if cand["cls"][2] not in ("0", "1") and cand["cls"][0] != "0":
+                        sample = cand
+        ops = sorted({k[0] for k in st if isinstance(k, tuple)})
+        ctx.extra["boundary_layer"] = dict(tuples=rows, opcodes=len(ops), panicked_runs=st["panicked"],
+                                           frames_ok={o: st[(o, "ok")] for o in ops}, frames_failed={o: st[(o, "failed")] for o in ops})
+        gate = ("RETURNDATACOPY", "CALLDATACOPY", "CODECOPY", "EXTCODECOPY", "JUMP", "JUMPI", "MSTORE", "SSTORE", "SELFDESTRUCT")   # complete in both tiers
+        if not quick:
+            gate += ("CALL", "CALLCODE", "DELEGATECALL", "STATICCALL", "RETURN", "SHA3", "LOG0", "LOG4", "CREATE")
+        for o in gate:
+            if not st[(o, "ok")] or not st[(o, "failed")]:
+                raise vlib.Broken("vacuity: boundary tuples of %s did not both succeed and fail: %d / %d" % (o, st[(o, "ok")], st[(o, "failed")]))
+        if sample is not None:
+            ctx.cov["samples"] = (ctx.cov.get("samples") or [])[:2] + [sample]
+        # code -> spec: several validators side by side, each under a module name of its own
+        slots = 8
+        tsrc = open(os.path.join(spec, "TraceCallFramesBoundary.tla")).read()
+        tcfg = open(os.path.join(spec, "TraceCallFramesBoundary.cfg")).read()
+        for k in range(slots):
+            with open(os.path.join(spec, "TraceCallFramesBoundary_%d.tla" % k), "w") as fh:
+                fh.write(tsrc.replace("MODULE TraceCallFramesBoundary", "MODULE TraceCallFramesBoundary_%d" % k))
+            with open(os.path.join(spec, "TraceCallFramesBoundary_%d.cfg" % k), "w") as fh:
+                fh.write(tcfg)
+
+        def val(k):
+            return ctx.validate("TraceCallFramesBoundary_%d" % k, "TraceCallFramesBoundary_%d.cfg" % k, files[k::slots],
+                                what="boundary-operand tuples", timeout=2400, count_behaviours=False)
+        with concurrent.futures.ThreadPoolExecutor(slots) as ex:
+            oks = list(ex.map(val, range(slots)))
+        if all(oks):
+            ctx.cov["traces_validated_against_impl"] += rows
+        fut_neg.result()
+    return finish
+
+
 def run(ctx):
     import vlib
     os.environ.setdefault("VERIF_TLC_HEAP", "2g" if ctx.quick() else "3g")
     ctx.build()
     quick = ctx.quick()
-    pool = concurrent.futures.ThreadPoolExecutor(8)
+    pool = concurrent.futures.ThreadPoolExecutor(24)
+    fut_boundary = pool.submit(boundary_layer(ctx, pool))      # enumerates, then drives and validates, next to everything else
     # the design runs go on in a second thread; ctx.tlc derives its -metadir from the module name and the millisecond,
     # so the two threads use differently named (otherwise identical) MC modules
     src = open(os.path.join(ctx.specdir, "MCCallFrames.tla")).read()
@@ -231,10 +359,16 @@ def run(ctx):
     ctx.validate("TraceCallFrames", "TraceCallFrames.cfg", [rnd], what="byte strings, opcode soups, precompiles, creations, recursion",
                  timeout=1800, count_behaviours=False)
     fut_design.result()
+    fut_boundary.result()
     ctx.assumptions += [
         "universe of the tree programs: sender U, contracts A, B, C holding one dispatcher image, storage slots s1, s2, values 0..2, value transfers 0/1",
         "a frame the model lets 'fail' is compiled to a seeded concrete failure: invalid opcode, out of gas, stack underflow, bad jump, "
         "and inside read-only frames SSTORE / LOG / SELFDESTRUCT / value CALL (write protection)",
         "CREATE is exercised by the arbitrary-program driver only (no panic, gas bound, determinism, failed => unchanged), not by the tree model",
         "published events = AddEventLog entries of the change journal (Account.GetEvents is C07's concern)",
-        "per-opcode arithmetic and gas tables are not specified; gas is checked by conservation (exact return accounting, 63/64 cap, never grows)"]
+        "per-opcode arithmetic and gas tables are not specified; gas is checked by conservation (exact return accounting, 63/64 cap, never grows)",
+        "boundary layer: memory up to 4 KiB is affordable with the 1 000 000 gas of the ample context, 2^32-1 bytes and more with no gas limit "
+        "(TLC invariant RangesDecided: no enumerated range lies in between); the state is compared by a fingerprint over the accounts the program "
+        "can name (sender, wrappers, returner, itself, its address operand, the contract it creates), its storage under the key classes, and the "
+        "published logs / creation records; arithmetic results are fixed only for division by zero, jumps, EXTCODESIZE and unaffordable value "
+        "transfers; CREATE init code is the 64 pattern bytes of memory"]
